@@ -162,6 +162,11 @@ fn name_clash_cases() -> Vec<Case> {
 
 pub fn cases(tier: Tier) -> Vec<Case> {
     let mut out: Vec<Case> = crate::sqlgen::queries_plus_depth(tier, tier.pick(1, 2)).into_iter().map(|g| Case { sql: g.sql, kind: "fragment", tables: g.tables }).collect();
+    // every application of the function sweep, including the ones whose value is undefined on part of the range
+    {
+        let have: std::collections::BTreeSet<String> = out.iter().map(|c| c.sql.clone()).collect();
+        out.extend(crate::sqlgen::function_sweep(tier.pick(1, 3), false).into_iter().filter(|g| !have.contains(&g.sql)).map(|g| Case { sql: g.sql, kind: "fragment", tables: g.tables }));
+    }
     out.extend(name_clash_cases());
     out.extend(probes());
     out
